@@ -21,7 +21,8 @@ LEVEL_TEXT = (
     " lookup."
 )
 NOT_DECIDED = "that the text under a label is the construct the message is about (semantic); column units of third-party renderers."
-TRUSTED = ["syn parser", "LALRPOP grammar reader", "LALRPOP @L/@R are byte offsets at token boundaries", "transducer extractor"]
+ENGINE = "mirfacts+astq"
+TRUSTED = ["rustc MIR (engines/mirfacts) for C04.11", "syn parser", "LALRPOP grammar reader", "LALRPOP @L/@R are byte offsets at token boundaries", "transducer extractor"]
 
 PL = "parser/src/parser_logic.rs"
 LIB = "parser/src/lib.rs"
@@ -336,8 +337,68 @@ def rule_foreign_locations(ctx):
     ctx.floor(R, "lookups of other definitions in the passes", n_sources, 1)
 
 
+FILE_TABLE_OWNERS = {
+    # constructor / mutator of the file table -> the only functions that may call it
+    r"codespan_reporting::files::SimpleFiles::<Name, Source>::(new|add|update)$|<codespan_reporting::files::SimpleFiles<Name, Source> as std::default::Default>::default$": (
+        r"program_library::file_definition::FileLibrary",
+        "the file table is built by FileLibrary only: ids handed out by add_file are the ids in every label",
+    ),
+    r"file_definition::FileLibrary::add_file$": (r"^parse_file$|AnalysisRunner::with_src$", "files enter the library when they are read by the parser (and in the string-source test helper)"),
+    r"file_definition::FileLibrary::new$|<[\w:]*file_definition::FileLibrary as std::default::Default>::default$": (
+        r"^parse_files$|FileLibrary::new$|AnalysisRunner as std::default::Default>::default$|AnalysisRunner::new$",
+        "one library per run, created by parse_files and handed on; the runner's default is replaced by it",
+    ),
+}
+
+
+def rule_file_table(ctx):
+    R = "C04.11"
+    ctx.rule(R, "there is one file table: only FileLibrary creates or extends a codespan SimpleFiles, only the parser adds files to the library, and the terminal writer resolves labels against the storage of the library it was given (so a label's file id means the same file for every consumer)")
+    import os
+
+    fn = None
+    for q, f in fns_in_file("program_structure/src/utils/writers.rs"):
+        if f["name"] == "write_reports" and f.get("body") and any(c["k"] == "Call" and c["func"]["k"] == "Path" and last(c["func"]["path"]) == "emit" for c in walk(f["body"])):
+            fn = f
+    if fn is None:
+        ctx.missing(R, "the write_reports that calls term::emit")
+    else:
+        pv = sgrep.params(fn)
+        ems = [c for c in walk(fn["body"]) if c["k"] == "Call" and c["func"]["k"] == "Path" and last(c["func"]["path"]) == "emit"]
+        env = sgrep.lets(fn["body"])
+        for c in ems:
+            ok = len(c["args"]) == 4 and len(pv) >= 2 and (sgrep.match(sgrep.pattern("__l.to_storage()"), c["args"][2], {"__l": pv[-1]}, env) or sgrep.match(sgrep.pattern("&__l.to_storage()"), c["args"][2], {"__l": pv[-1]}, env))
+            ctx.check(R, "write_reports/emit-resolves-against-the-given-library", bool(ok), "files argument: %s" % render(c["args"][2])[:80], site("program_structure/src/utils/writers.rs", c))
+        ts = find_fn("program_structure/src/program_library/file_definition.rs", "to_storage", "FileLibrary")
+        if ts is None:
+            ctx.missing(R, "FileLibrary::to_storage")
+        else:
+            from astlib import result_expr
+
+            t = result_expr(ts)
+            ctx.check(R, "FileLibrary::to_storage/returns-the-stored-table", t is not None and render(strip(t)).replace(" ", "") in ("&self.files", "self.files"), render(t) if t else "?", site("program_structure/src/program_library/file_definition.rs", ts))
+    if os.environ.get("VERIF_SKIP_MIR_RULES") == "1":
+        return ctx.note("C04.11 who-may-call part skipped (VERIF_SKIP_MIR_RULES=1)")
+    import mirlib
+    import dropflow
+
+    n = 0
+    for fid, f in sorted(mirlib.index().items()):
+        if f.get("gen") or dropflow._is_test(f):
+            continue
+        for _i, t in mirlib.calls_of(f):
+            p = t.get("pretty") or ""
+            for pat, (owners, why) in FILE_TABLE_OWNERS.items():
+                if re.search(pat, p):
+                    n += 1
+                    ok = bool(re.search(owners, f["pretty"]))
+                    ctx.check(R, "who-calls/%s<-%s" % (re.sub(r"<[^>]*>|^.*::(?=\w+::\w+$)", "", p), f["pretty"]), ok, why if ok else "%s is called from %s (%s)" % (p, f["pretty"], why), (f["file"], t["line"]))
+    ctx.floor(R, "file table constructor / mutator call sites", n, 5)
+
+
 def run(ctx):
     rule_foreign_locations(ctx)
+    rule_file_table(ctx)
     ctx.rule("C04.10", "Report::add_primary / add_secondary attach exactly the byte range and file id they are given (no widening, shifting or re-anchoring)")
     c03.rule_label_passthrough(ctx, "C04.10")
     ctx.include("C04.1", "the comment stripper is equivalent to the reference lexer for all strings - in particular every byte of the input corresponds to exactly one byte of the output (shared with C05.1)", lambda c: c05.run(c), only=["preprocess/"])
@@ -347,4 +408,7 @@ def run(ctx):
     rule_fill(ctx)
     rule_synth(ctx)
     rule_explicit_ranges(ctx)
+    import c13
+
+    ctx.include("C04.12", "the statements synthesised for `x op= e`, `x++` and `x--` are located at the whole statement: the expansion is compared with the written-out form including the meta it is given (shared with C13.1)", c13.rule_expansions)
     ctx.include("C04.8", "SARIF regions come from the renderer's own lookup of the label's byte offsets (shared with C03.8)", lambda c: c03.rule_region(c, "C03.8"))
